@@ -112,6 +112,19 @@ add("C16",
 
 # ---------------------------------------------------------------- C17
 add("C17",
+    V("revert-fix-blank-substring", "C17", [(SEARCH, '                if parsed_best[k][0]["date_obj"] and substrings_best[k]:', '                if parsed_best[k][0]["date_obj"]:')], "fire", "C17.R4"),
+    V("twin-blank-test-first", "C17", [(SEARCH, '                if parsed_best[k][0]["date_obj"] and substrings_best[k]:', '                if substrings_best[k] and parsed_best[k][0]["date_obj"]:')], "silent"),
+    V("alignment-loop-one-sided", "C17", [(LOCALE, "        while len(original_tokens) != len(simplified_tokens):\n            if len(original_tokens) > len(simplified_tokens):\n                original_tokens.remove(\"\")\n            else:\n                simplified_tokens.remove(\"\")\n",
+                                           "        while len(original_tokens) > len(simplified_tokens):\n            original_tokens.remove(\"\")\n")], "fire", "C17.R1",
+      note="seeded change C17-1: the simplified list can stay longer, translate_search then indexes past the end of the original one"),
+    V("hit-lists-out-of-step", "C17", [(LOCALE, "            if translated_chunk:\n                translated.append(translated_chunk)\n                original.append(original_chunk)\n        for i in range(len(translated)):",
+                                        "            if translated_chunk:\n                translated.append(translated_chunk)\n                if any(original_chunk):\n                    original.append(original_chunk)\n        for i in range(len(translated)):")], "fire", "C17.R1"),
+    V("split-count-guard-dropped", "C17", [(SEARCH, "            if splitter in item and item.count(splitter) == original.count(splitter):", "            if splitter in item:")], "fire", "C17.R1",
+      note="translated and original pieces no longer have the same number of parts"),
+    V("candidate-lists-out-of-step", "C17", [(SEARCH, "                        current_parsed.append((parsed_jtem, is_relative_jtem))\n                        current_substrings.append(split_original[j].strip(\" .,:()[]-\"))\n",
+                                              "                        current_parsed.append((parsed_jtem, is_relative_jtem))\n                        if parsed_jtem[\"date_obj\"]:\n                            current_substrings.append(split_original[j].strip(\" .,:()[]-\"))\n")], "fire", "C17.R1"),
+    V("twin-final-loop-walks-the-other-list", "C17", [(LOCALE, "        for i in range(len(translated)):\n            if \"in\" in translated[i]:", "        for i in range(len(original)):\n            if \"in\" in translated[i]:")], "silent"),
+    V("twin-alignment-test-negated-equality", "C17", [(LOCALE, "        while len(original_tokens) != len(simplified_tokens):\n", "        while not len(original_tokens) == len(simplified_tokens):\n")], "silent"),
     V("century-choice-before-awareness-alignment", "C17", [(PARSER, "        if self._token_year and len(self._token_year[0]) == 2:\n            if self.now < dateobj:\n                if \"past\" in self.settings.PREFER_DATES_FROM:\n                    dateobj = dateobj.replace(year=dateobj.year - 100)\n            else:\n                if \"future\" in self.settings.PREFER_DATES_FROM:\n                    dateobj = dateobj.replace(year=dateobj.year + 100)\n\n", ""), (PARSER, "        # NOTE: If this assert fires, self.now needs to be made offset-aware in a similar\n", "        if self._token_year and len(self._token_year[0]) == 2:\n            if self.now < dateobj:\n                if \"past\" in self.settings.PREFER_DATES_FROM:\n                    dateobj = dateobj.replace(year=dateobj.year - 100)\n            else:\n                if \"future\" in self.settings.PREFER_DATES_FROM:\n                    dateobj = dateobj.replace(year=dateobj.year + 100)\n\n        # NOTE: If this assert fires, self.now needs to be made offset-aware in a similar\n")], "fire", "C17.R2",
       note="seeded change C17-2: a timezone-carrying earlier hit makes the chained relative base aware; a later two-digit year is compared while still naive"),
     V("awareness-alignment-dropped", "C17", [(PARSER, "        if self.now.tzinfo is not None and dateobj.tzinfo is None:\n            dateobj = pytz.utc.localize(dateobj)\n", "")], "fire", "C17.R2"),
